@@ -87,7 +87,8 @@ THEOREMS = ['C05_pot_transform_compl_untouched', 'C05_pot_transform_den',
             'C05_pipeline_with_lattices_linked2',
             'C05_pipeline_with_lattice_linked2',
             'C05_lattice_elements_accepted_linked',
-            'C05_located_through_lattice_linked2']
+            'C05_located_through_lattice_linked2',
+            'C05_precedence_located_linked_spellings']
 
 
 def tie_case_summary(case):
